@@ -25,7 +25,36 @@ pub enum M {
 
 const MAX_DEPTH: usize = 256;
 
+thread_local! {
+    /// (syntax, number style) of the rendering in progress; see [`styled`].
+    static STYLE: std::cell::RefCell<(String, String)> = std::cell::RefCell::new((String::new(), String::new()));
+}
+
+/// The spelling of a non-negative integer in the rendering's number style (ADEF key `num_style`:
+/// `dec` (default), `hex`, `bin`, `mixed`), where the target syntax can spell it that way: the DSL
+/// and TOML have `0x` / `0b` literals, YAML has `0x` (and `0b…` arrives as a string the manifest
+/// reader converts), JSON has decimal numbers only. Negative numbers stay decimal.
+fn styled(dec: String) -> String {
+    let (syntax, style) = STYLE.with(|s| s.borrow().clone());
+    if style.is_empty() || style == "dec" || syntax == "json" {
+        return dec;
+    }
+    let Ok(v) = dec.parse::<u128>() else { return dec };
+    let pick = match style.as_str() {
+        "hex" => 1,
+        "bin" => 2,
+        _ => (v % 3) as u8 + if dec.len() % 2 == 0 { 1 } else { 0 },
+    } % 3;
+    match pick {
+        1 => format!("0x{v:X}"),
+        2 if v < (1u128 << 63) => format!("0b{v:b}"),
+        _ => dec,
+    }
+}
+
 pub fn render(adef: &Value, syntax: &str) -> Result<String, String> {
+    let style = adef.get("num_style").and_then(Value::as_str).unwrap_or("dec").to_string();
+    STYLE.with(|s| *s.borrow_mut() = (syntax.to_string(), style));
     match syntax {
         "dsl" => render_dsl(adef),
         "json" => Ok(emit_json(&manifest_tree(adef, false)?)),
@@ -47,8 +76,8 @@ fn is_int_text(s: &str) -> bool {
 /// The literal text of an ADEF integer (JSON number or decimal string).
 fn int_text(v: &Value) -> Option<String> {
     match v {
-        Value::Number(n) => Some(n.to_string()),
-        Value::String(s) if is_int_text(s) => Some(s.strip_prefix('+').unwrap_or(s).to_string()),
+        Value::Number(n) => Some(styled(n.to_string())),
+        Value::String(s) if is_int_text(s) => Some(styled(s.strip_prefix('+').unwrap_or(s).to_string())),
         _ => None,
     }
 }
